@@ -200,6 +200,8 @@ ActionFails(e) ==
     [] e.name = "Observe" -> ObsFails(e)
     [] e.name = "Posterior" -> PostFails(e)
     [] e.name = "Resume" -> RSFails
+    [] e.name = "Restart" -> (IF RST_Pre THEN {} ELSE {"RST_LosesEvaluations"})
+                             \cup (IF RST_Effect THEN {} ELSE {"RST_Effect"})
     [] OTHER -> {"NoSuchAction"}
 
 Fails(i) == ActionFails(Log[i].event)
